@@ -17,6 +17,9 @@ CFG = dict(
     n={"quick": 20000, "thorough": 1000000, "search": 20000},
     thorough_seeds=1,
     timeout={"quick": 300, "thorough": 1700},
+    # the overlay calls unexported sticky functions: full build with tag c08pieces, fallback = Plan-level harness only
+    build_tags=["c08pieces"],
+    fallback_tags=[],
     level="proof",
     assumptions=[
         "range: the IEEE-754 evaluation floor(i*(n/m)+0.5) is a parameter r constrained by RangeBoundary (r 0 = 0, r m = n, |2*m*r(i)-2*i*n| <= m); "
